@@ -4,6 +4,7 @@ package main
 
 import (
 	"context"
+	"crypto/ecdsa"
 	"errors"
 	"fmt"
 	"math/rand"
@@ -14,6 +15,7 @@ import (
 
 	"github.com/ethereum/go-ethereum/p2p/discover"
 	"github.com/ethereum/go-ethereum/p2p/enode"
+	"github.com/ethereum/go-ethereum/p2p/netutil"
 	cache "github.com/go-pkgz/expirable-cache/v3"
 	"github.com/zen-eth/shisui/portalwire"
 	"github.com/zen-eth/shisui/storage"
@@ -121,10 +123,15 @@ type nodeOpts struct {
 	queueCap  int
 	noWorkers bool
 	proto     portalwire.ProtocolId
+	restrict  string            // netutil.ParseNetlist form; empty = no allow-list
+	key       *ecdsa.PrivateKey // optional: the node's identity (else drawn from the PRNG)
 }
 
 func startNode(mn *memNet, r *rand.Rand, o nodeOpts) *realNode {
-	key := keyFromSeed(r)
+	key := o.key
+	if key == nil {
+		key = keyFromSeed(r)
+	}
 	if o.store == nil {
 		o.store = &storage.MockStorage{Db: map[string][]byte{}}
 	}
@@ -134,6 +141,13 @@ func startNode(mn *memNet, r *rand.Rand, o nodeOpts) *realNode {
 	conf := portalwire.DefaultPortalProtocolConfig()
 	conf.MaxUtpConnSize = o.utpLimit
 	conf.ListenAddr = fmt.Sprintf("%s:%d", o.ip, o.port)
+	if o.restrict != "" {
+		l, err := netutil.ParseNetlist(o.restrict)
+		if err != nil {
+			panic(err)
+		}
+		conf.NetRestrict = l
+	}
 	conn := mn.listen(o.ip, o.port)
 	db, err := enode.OpenDB("")
 	if err != nil {
